@@ -388,7 +388,8 @@ Section trav.
     if rb_full L C q0 && in_any rects q0 then paint_val app (own V T0 q0) else rb_cells b q0.
   Proof.
     induction rects as [|R rest IH]; intros s b Hfs HG HO.
-    - cbn. intros _ _. rewrite andb_false_r. reflexivity.
+    - cbv zeta. unfold flush_rb_re, in_any. cbn [fold_left fst snd existsb]. intros _ _.
+      rewrite andb_false_r. reflexivity.
     - cbv zeta. unfold flush_rb_re. cbn [fold_left fst snd]. fold (rect_frame b R).
       set (sb1 := do_expose_re rh (r_tree s) R (s, rect_frame b R)).
       change (fold_left _ rest (fst sb1, rb_restore (snd sb1)))
